@@ -478,4 +478,7 @@ theorem encode_convertSplit (t : TypeId) (v : J) (e : Exp) (h : convertSplit t v
     obtain ⟨e0, h0, rfl⟩ := h
     rw [encode_fix, encode_ofJ _ e0 h0]
 
+
+theorem isSplitKey_splitKey : isSplitKey splitKey = true := by decide
+
 end Martian.Invocation
